@@ -43,7 +43,7 @@ func (c19) Floors(string) []runner.Floor {
 type c19Worker struct{}
 
 func (c19) NewWorker(string, int64) (runner.Worker, error) { return &c19Worker{}, nil }
-func (w *c19Worker) Close()                                 {}
+func (w *c19Worker) Close()                                {}
 
 // ---- literal port of upstream's matrix vocabulary ----
 
